@@ -98,7 +98,23 @@ func (x *Exec) evalMulti(s *State, e ast.Expr) []*Value {
 			}
 			return []*Value{dyn}
 		}
-		x.fail(e.Pos(), "type assertion on value of unknown dynamic type")
+		// unknown dynamic type: the assertion may succeed or fail; on success the value is an unconstrained value of the
+		// asserted type (sound over-approximation: nothing is assumed about its contents)
+		okT := Fresh("typeassert.ok", SBool)
+		var res *Value
+		if tt != nil {
+			res = x.namedValue(tt, Fresh("typeassert.val", SInt).Name, s)
+		} else {
+			res = &Value{K: KOpaque, Typ: tt}
+		}
+		x.note("TYPEASSERT: assertion on a value of unknown dynamic type at %s: both outcomes explored, asserted value unconstrained", x.Pr.Pos(e.Pos()))
+		if tv, ok := info.Types[e]; ok {
+			if tup, ok := tv.Type.(*types.Tuple); ok && tup.Len() == 2 {
+				return []*Value{res, prim(okT, types.Typ[types.Bool])}
+			}
+		}
+		x.requireSafe(s, okT, "type-assertion", e.Pos())
+		return []*Value{res}
 	case *ast.KeyValueExpr:
 		x.fail(e.Pos(), "stray key-value expr")
 	}
